@@ -779,6 +779,14 @@ impl Object {
 	}
 }
 
+/// Verification hook: read-only dump of the key index.
+#[cfg(json_syntax_verif)]
+impl Object {
+	pub fn verif_index_dump(&self) -> Vec<(usize, Vec<usize>)> {
+		self.indexes.verif_dump()
+	}
+}
+
 pub type Iter<'a> = core::slice::Iter<'a, Entry>;
 
 pub struct IterMut<'a>(std::slice::IterMut<'a, Entry>);
